@@ -84,6 +84,10 @@ TWINS = [
     ('T5', P + 'dtw.py', 'def _distance_matrix_idxs', 'it_c = range(max(r + 1, block[1][0]), min(nb_series, block[1][1]))', 'it_c = range(max(block[1][0], 1 + r), min(block[1][1], nb_series))', ['C06']),
     ('T6', P + 'similarity.py', 'def distance_to_similarity', 'S = np.exp(-D / r)', 'S = np.exp(-(D / r))', ['C19']),
     ('T7', C + 'dd_dtw_openmp.c', 'idx_t dtw_distances_ptrs_parallel(', 'private(r_i, c_i, r, c)', 'private(c_i, r_i, c, r)', ['C07']),
+    ('T9', P + 'util.py', 'class SeriesContainer', 'self.detected_ndim = len(self.series[0, 0])', 'self.detected_ndim = self.series.shape[2]', ['C11']),
+    ('T10', P + 'dtw.py', 'def distance(s1, s2', 'for ii in range(i1*length, i1*length+length):', 'for ii in range(length*i1, length*i1 + length):', ['C01', 'C10']),
+    ('T11', P + 'similarity.py', 'def squash', 'Xz = 1 / (1 + np.power(base, -(0 - x0) / r))', 'Xz = 1 / (1 + np.power(base, x0 / r))', ['C19']),
+    ('T12', P + 'dp.py', 'def dp(', 'last_under_max_dist == -1 and c > 0:', 'last_under_max_dist == -1 and c >= 1:', ['C17']),
     ('T8', P + 'clustering/hierarchical.py', 'def fit(self, series):', "        logger.debug('Merging patterns')\n", "        logger.debug('Merging the patterns')\n\n", ['C15']),
 ]
 
@@ -139,13 +143,36 @@ def _run_variant(item, kind):
         shutil.rmtree(tmp, ignore_errors=True)
 
 
+def _run_seeded(name):
+    """A seeded change kept under /verif/seeded/<prop>-<mK>/patch.diff must be reported by the check of the property it breaks."""
+    d = os.path.join(VERIF, 'seeded', name)
+    prop = name.split('-')[0]
+    tmp = tempfile.mkdtemp(prefix='sa_selftest_')
+    try:
+        shutil.copytree(os.path.join(REPO, 'src'), os.path.join(tmp, 'src'), ignore=shutil.ignore_patterns('*.so', '__pycache__', 'build'))
+        subprocess.run(['git', 'init', '-q', '.'], cwd=tmp, stdout=subprocess.DEVNULL, stderr=subprocess.DEVNULL)
+        p = subprocess.run(['git', 'apply', '--unsafe-paths', '-p1', '--directory=.', os.path.join(d, 'patch.diff')], cwd=tmp, stdout=subprocess.PIPE, stderr=subprocess.STDOUT, text=True)
+        if p.returncode != 0:
+            return name, False, 'SETUP: patch does not apply to the current tree: ' + p.stdout[:200]
+        env = dict(os.environ, VERIF_REPO=tmp, VERIF_NO_EVIDENCE='1', VERIF_CACHE=os.path.join(tmp, '.cache'))
+        p = subprocess.run(['/venv/bin/python', '-m', 'sa.check', prop], cwd=VERIF, env=env, stdout=subprocess.PIPE, stderr=subprocess.STDOUT, text=True)
+        lines = [l.strip()[:200] for l in p.stdout.splitlines() if l.startswith('  ')]
+        ok = p.returncode == 1 and bool(lines)
+        return name, ok, ('%s: %s' % (prop, lines[0])) if ok else '%s: expected a violation, rc=%s %s' % (prop, p.returncode, [l for l in p.stdout.splitlines() if 'ERROR' in l][:2])
+    finally:
+        shutil.rmtree(tmp, ignore_errors=True)
+
+
 def main(argv):
     jobs = 16
     ids = [a for a in argv if not a.startswith('-')]
-    work = [(m, 'mutant') for m in MUTANTS if not ids or m[0] in ids] + [(t, 'twin') for t in TWINS if not ids or t[0] in ids]
+    seeded_only = '--seeded' in argv
+    work = [] if seeded_only else [(m, 'mutant') for m in MUTANTS if not ids or m[0] in ids] + [(t, 'twin') for t in TWINS if not ids or t[0] in ids]
+    sdir = os.path.join(VERIF, 'seeded')
+    seeded = sorted(n for n in os.listdir(sdir) if os.path.isdir(os.path.join(sdir, n)) and (not ids or n in ids)) if os.path.isdir(sdir) and (seeded_only or '--all' in argv) else []
     res = []
     with concurrent.futures.ThreadPoolExecutor(max_workers=jobs) as ex:
-        futs = [ex.submit(_run_variant, item, kind) for item, kind in work]
+        futs = [ex.submit(_run_variant, item, kind) for item, kind in work] + [ex.submit(_run_seeded, n) for n in seeded]
         for fu in futs:
             res.append(fu.result())
     bad = 0
